@@ -333,7 +333,7 @@ func matchKnown(known []knownFinding, v *Violation) *knownFinding {
 }
 
 func saveReplay(v *Violation) string {
-	dir := filepath.Join(verifDir, "replays")
+	dir := envOr("VERIF_REPLAYS_DIR", filepath.Join(verifDir, "replays"))
 	os.MkdirAll(dir, 0o755)
 	name := fmt.Sprintf("%s_%s_%s.json", v.Property, sanitize(v.Job), sanitize(v.Label+"_"+v.Scenario))
 	p := filepath.Join(dir, name)
@@ -524,10 +524,46 @@ func cmdReplay(args []string) int {
 		fmt.Fprintln(os.Stderr, err)
 		return 2
 	}
+	verbose := false
+	for _, a := range args[1:] {
+		if a == "--verbose" {
+			verbose = true
+		}
+	}
 	out, ok := nativeReplay(&v)
 	fmt.Printf("replay of %s label=%s: %s\n", args[0], v.Label, out)
 	if ok {
 		fmt.Printf("VIOLATION property=%s replay=%s\n", v.Property, args[0])
+		return 1
+	}
+	// counterexamples that depend on a schedule (or on engine-side symbolic hashes) are replayed by the engine itself:
+	// every input and every scheduling decision substituted, no solver in the loop
+	var job *Job
+	for _, tier := range []string{"quick", "thorough"} {
+		for _, j := range jobsFor(v.Property, tier) {
+			if j.Name == v.Job {
+				job = j
+			}
+		}
+	}
+	if job == nil {
+		fmt.Println("did not reproduce natively; job " + v.Job + " is not registered any more, no interpretive replay")
+		return 0
+	}
+	P, err := loadProgram()
+	if err != nil {
+		fmt.Fprintln(os.Stderr, err)
+		return 2
+	}
+	defer cleanupScratch()
+	job.Verbose = verbose
+	iout, iok := InterpReplay(P, job, &v)
+	fmt.Printf("interpretive replay (schedule and inputs substituted): %s\n", iout)
+	for _, l := range v.Trace {
+		fmt.Println("  vLog:", l)
+	}
+	if iok {
+		fmt.Printf("VIOLATION property=%s replay=%s replay-mode=interp\n", v.Property, args[0])
 		return 1
 	}
 	fmt.Println("did not reproduce")
